@@ -24,6 +24,12 @@ def run(tier, seed, replay_rows=None):
         ck.add_tlc(cfg, r)
     runtraces.check(ck, "C05", rows=replay_rows)
     if replay_rows is None:
+        # the Result shared by the progress reporter and the run goroutine, both running freely (nested read locks)
+        import json as _json
+        vlib.flow(ck, mcs=[], sub="c05views", trace_module="Trace_ViewsLive", trace_cfg="Trace_ViewsLive.cfg",
+                  trace_file="c05views.ndjson", var="l", key_of=lambda r: "C05:result-views-deadlock-the-run@stress",
+                  describe=lambda r: _json.dumps(r)[:400], workers=1)
+    if replay_rows is None:
         # users mode at yield-point grain: cooperative schedules of the real ContinuousPool (limit, cancel, pool started
         # on a context that is already done; stopper / workers / bodies starved in turn)
         runtraces.extra(ck, "C05", "cpool", "cpool.ndjson")
